@@ -50,13 +50,13 @@ def run(ctx):
     def post(P_, J, runs):
         ctx.cov["relational"] = common.relational(ctx, P_, J, runs, clause="option-dependent", sig_extra=sig_extra)
 
-    J, runs, cov = common.sem_check(ctx, P, variants, level="model_checking", post=post, write=False,
+    J, runs, cov = common.sem_check(ctx, P, variants, level="exploration", post=post, write=False,
                                     sig_extra=sig_extra)
     cov["option_vectors"] = ["+".join(sorted(v)) or "(none)" for v in vecs]
     cov["option_pairs_covered"] = len(pairs)
     cov["option_pairs_total"] = len(OPTS) * (len(OPTS) - 1) // 2
     cov["relational_comparisons"] = ctx.cov.get("relational", 0)
-    ctx.write_evidence("model_checking", cov)
+    ctx.write_evidence("exploration", cov)
 
 
 def replay(ctx, path):
